@@ -37,6 +37,7 @@ type Backend struct {
 	HoldPub time.Duration
 
 	mu     sync.Mutex
+	ackMu  sync.Mutex
 	calls  map[string]int
 	stores map[interface{}]storeName
 	wg     sync.WaitGroup
@@ -258,8 +259,11 @@ func (b *Backend) Publish(c *broker.Client, msg *packet.Message, ack broker.Ack)
 		go func() {
 			defer b.wg.Done()
 			time.Sleep(b.AckDelay)
+			// log entry and invocation form one step, so that concurrent late acks are logged in the order they take effect
+			b.ackMu.Lock()
 			b.Tr.Add("pub.ack", "c", n, "m", tag)
 			ack()
+			b.ackMu.Unlock()
 		}()
 	}
 	return err
